@@ -77,4 +77,34 @@ Proof.
   destruct (db_step veqb ev2 s2 c (dispatch q)) as [[x2 r2] f2]. cbn in *. subst. reflexivity.
 Qed.
 
+(* Every reply that carries data - a value, metadata, a version number, a listing, the HTML page - was
+   preceded by one complete audit record naming the caller the front door identified, the action, the
+   secret and the version asked for, authorized = true; nothing but the save may follow it.  (C06's
+   record-before-disclosure clause, stated at the wire.) *)
+Theorem front_value_logged ev (s : dbstate V) (rq : request) s' rsp fx r :
+  http_step ev s rq = (s', rsp, fx) -> rb rsp = BodyResult r -> carries_data r = true ->
+  exists c q post, gate rq = Accept c q
+    /\ fx = EAudit (the_entry c (dispatch q) (act_of (dispatch q)) true) :: post
+    /\ (post = [] \/ post = [ESave]).
+Proof.
+  unfold Http.http_step. destruct (gate rq) as [st|c q] eqn:G.
+  - intro H; injection H as _ <- _. discriminate.
+  - destruct (db_step veqb ev s c (dispatch q)) as [[s1 r0] fx1] eqn:D. intro H; injection H as _ <- <-.
+    intros B C. assert (r0 = r) by (destruct r0; cbn in B; try discriminate; injection B as <-; reflexivity). subst r0.
+    destruct (@value_implies_logged V veqb ev s c (dispatch q) s1 r fx1 D C) as (post & -> & P).
+    exists c, q, post. auto.
+Qed.
+
+(* ... and a request refused for lack of permission (403) left its record, authorized = false, unless the
+   sink itself failed *)
+Theorem front_denial_logged ev (s : dbstate V) (rq : request) c q s' rsp fx :
+  gate rq = Accept c q -> http_step ev s rq = (s', rsp, fx) -> status rsp = 403 ->
+  fx = [EAudit (the_entry c (dispatch q) (act_of (dispatch q)) false)] \/ audit_failed fx = true.
+Proof.
+  intros G. unfold Http.http_step. rewrite G.
+  destruct (db_step veqb ev s c (dispatch q)) as [[s1 r0] fx1] eqn:D. intro H; injection H as _ <- <-.
+  intro St. assert (r0 = RDenied) by (destruct r0; cbn in St; try discriminate; reflexivity). subst r0.
+  exact (@denial_logged V veqb ev s c (dispatch q) s1 fx1 D).
+Qed.
+
 End Front.
